@@ -5,6 +5,7 @@ from vsym.core import s_ite
 
 PROPERTY = 'C12'
 PYTHON_O = ['pack/3-tags']      # obligations that are also explored with the modules compiled as under python -O
+DEBUG_LOG = ['pack/2-tags']      # obligations that are also explored with debug logging switched on
 ASSUMPTIONS = [
     'PDS tags are concrete distinct 4-digit strings (a fixed family per obligation); value content opaque, value lengths symbolic 0..992',
     'capacity assumption of the property: the greedy packing of the set fits the five configured carriers (48, 62, 123, 124, 125)',
@@ -17,7 +18,7 @@ def _funcs():
     return [i._pds_to_de, i._dict_to_iso8583, i._field_to_iso8583, i._pds_to_dict, i._iso8583_to_dict, i._iso8583_to_field]
 
 
-def pack(tags, encoding='latin_1', cfgname=None):
+def pack(tags, encoding='latin_1', cfgname=None, greedy=False):
     def h():
         core.FUEL.set(len(tags) + 3)
         iso = M().iso8583
@@ -55,7 +56,7 @@ def pack(tags, encoding='latin_1', cfgname=None):
         assume(ncar <= len(carriers))
         def rp():
             return {'kind': 'pack', 'args': {'tags': list(tags), 'lengths': [ev(n) for n in ns], 'encoding': encoding,
-                                            'values': [concretize(v, ev) if isinstance(v, Rope) else v for v in vals], 'cfg': cfgname}}
+                                            'values': [concretize(v, ev) if isinstance(v, Rope) else v for v in vals], 'cfg': cfgname, 'greedy': greedy}}
         core.set_fallback(rp, 'C12/concretised')
         with guard('_pds_to_de', 'C12/exception', rp):
             outs = iso._pds_to_de(dict(msg))
@@ -74,6 +75,10 @@ def pack(tags, encoding='latin_1', cfgname=None):
             cum = cum + L
             require(s_or(*[s_eq(cum, s) for s in sums[1:]]), 'a sub-element is split between carriers', key='C12/split', replay=rp)
         require(len(outs) <= len(carriers), 'set that fits the carriers was packed into %d' % len(outs), key='C12/capacity', replay=rp)
+        if greedy:
+            # C02 (exact layout of the encoded message): a carrier is closed only when the next sub-element does not fit any more
+            require(len(outs) == ncar, 'sub-elements that fit %d carrier(s) when packed greedily were packed into %d' % (ncar, len(outs)),
+                    key='C02/pds-greedy', replay=rp)
         # (4) through dumps/loads: carriers assigned in ascending element order; decode returns the same set
         try:
             with guard('dumps of a PDS set that fits the carriers', 'C12/encode-refused', rp, allow=(IndexError,)):
